@@ -75,7 +75,7 @@ def w_asan(exe, cases, variant, src):
                              {"stderr": err[-2500:], "op": lines[idx][:2] if idx >= 0 else "exit", "source": src}))
     n = sum(1 for r in recs if r is not None)
     part["counters"]["asan.%s.records" % variant] += n
-    part["counters"]["asan.calls"] += (n // 3) * 40 + (n // 3) * 12
+    part["counters"]["asan.calls"] += n            # driver operations answered (each runs 4-50 library calls)
     part["counters"]["asan.max_input_len"] = max([len(a) for a in cases] or [0])
     part["distinct"] = len(set(cases))
     if cases:
@@ -99,7 +99,7 @@ def w_mem(exe, cases, variant):
             kind = "over-read" if off >= len(a) else "under-read" if off < 0 else "write-or-inside"
             part["viol"].append(("placement/%s/%s/%s" % (kind, pl, stage), {"input": core.b2s(a)[:300], "hex": a.hex()[:2000], "build": variant},
                                  {"fault_offset_from_string_start": off, "length": len(a), "signal": sig}))
-    part["counters"]["placement.calls"] += part["counters"]["placement.cases"] * 2 * 40
+    part["counters"]["placement.calls"] += part["counters"]["placement.cases"] * 2      # two placements per case, ~40 entry-point calls each
     part["distinct"] = len(set(cases))
     return part
 
@@ -338,7 +338,8 @@ def main(tier, seed):
                       "every public entry point on: the C01 address corpus, every byte value at every position of 12 structural bases and "
                       "around '@[].\"', 20 repeated-unit families and random bytes up to %d bytes; ASan+UBSan+LSan (2 builds), guard-page/"
                       "read-only placement (-O2, -O0), memcheck with uninitialised eav_t, 4-way poison differential, allocation ledger "
-                      "histories, callgrind cost clock on %d families x %d entry points x sizes %s%s; evaluations = library calls; distinct = "
+                      "histories, callgrind cost clock on %d families x %d entry points x sizes %s%s; evaluations = driver operations answered (records, "
+                      "placements, validations, cost runs, fuzz executions - each operation makes 1-50 library calls); distinct = "
                       "distinct inputs per instrument" % (max(len(l) for l in longs), len(FAMILIES), len(ENTRIES_Q if tier == "quick" else ENTRIES_T),
                                                         sizes, "" if tier == "quick" else ", libFuzzer 12 x 400k runs"),
                       {"builds": cx.builds_info()})
